@@ -542,9 +542,14 @@ func vEngine2Run(t *testing.T, mode string, opsPer int) {
 		g.nkeys = 1 + r.Intn(2)
 		g.nids = 2 + r.Intn(3)
 		g.keyBase = 10 * (it + 1)
+		g.keyStep = vKeyStep(r, v.db)
+		if g.keyStep > 1 {
+			g.nkeys = 2 + r.Intn(2)
+			out.stat("keys-share-fast-slot")
+		}
 		x := &vE2Run{v: v, ch: ch, g: g, r: r, out: out, leader: true}
 		for k := 0; k < g.nkeys; k++ {
-			x.keys = append(x.keys, g.keyBase+k)
+			x.keys = append(x.keys, g.keyBase+k*g.step())
 		}
 		x.mon = vE2NewMonitor(out, x)
 		g.statf = out.stat
